@@ -3,24 +3,81 @@ C04 — model of `mahf::state::common::Populations` (src/state/common.rs) and of
 utility components (src/components/utils/populations.rs).
 
 Code-shaped: the stack is a `Vec`, i.e. a list whose LAST element is the top; index arithmetic is
-Rust's (`checked_sub`, slice-range panics), panics are an explicit outcome.  Individuals are
-opaque tags (`Nat`); the harness tags every individual uniquely.
+Rust's (`checked_sub`, slice-range panics), panics are an explicit outcome.
+
+An individual is a solution tag plus its cached objective value (`none` = not evaluated), so that
+"untouched" covers the evaluation state as well.  In-place edits through `current_mut()` /
+`get_current_mut()` are a small language of `Vec` operations (`Edit`), including the ones that
+panic inside the edit.
+
+Two places are nondeterministic over a *legal witness* read off the real run:
+* `SplitPopulationByObjectiveValue` sorts with `sort_unstable_by_key`; among individuals with
+  equal objective value any order is legal (`splitLegal`).  Without (or with an illegal) witness the
+  model answers with the stable sort.
+* After a panic inside `InterleavePopulations` / `SplitPopulationByObjectiveValue` the code has
+  already popped; nothing promises that, so "stack untouched" is accepted too (witness = height
+  after the panic).  Without a witness the model follows the code.
 -/
 import MahfModel.Model.Sexp
 namespace MahfModel.PopStack
 
-abbrev Pop := List Nat
+/-- `Individual<P>`: solution (a unique tag) and the cached objective value. -/
+structure Ind where
+  tag : Nat
+  obj : Option Nat
+  deriving DecidableEq, Repr
+
+abbrev Pop := List Ind
 /-- `Vec<Vec<Individual>>`: index 0 is the bottom, the last element is the top. -/
 abbrev Stk := List Pop
 
+/-- An in-place edit of the `&mut Vec<Individual>` handed out by `current_mut` / `get_current_mut`. -/
+inductive Edit where
+  | set (p : Pop)              -- `*c = p`
+  | push (i : Ind)             -- `c.push(i)`
+  | extend (p : Pop)           -- `c.extend(p)`
+  | truncate (k : Nat)         -- `c.truncate(k)`
+  | swapRemove (i : Nat)       -- `c.swap_remove(i)`   (panics when `i >= len`)
+  | remove (i : Nat)           -- `c.remove(i)`        (panics when `i >= len`)
+  | insert (i : Nat) (x : Ind) -- `c.insert(i, x)`     (panics when `i > len`)
+  | swap (i j : Nat)           -- `c.swap(i, j)`       (panics when out of range)
+  | reverse                    -- `c.reverse()`
+  | clear                      -- `c.clear()`
+  | retainEval                 -- `c.retain(|i| i.is_evaluated())`
+  deriving Repr, DecidableEq
+
+/-- The edit on the vector; `none` = the edit panics (before changing anything). -/
+def applyEdit : Edit → Pop → Option Pop
+  | .set p, _ => some p
+  | .push i, c => some (c ++ [i])
+  | .extend p, c => some (c ++ p)
+  | .truncate k, c => some (c.take k)
+  | .swapRemove i, c =>
+    match c.getLast? with
+    | some l => if i < c.length then some ((c.set i l).dropLast) else none
+    | none => none
+  | .remove i, c => if i < c.length then some (c.eraseIdx i) else none
+  | .insert i x, c => if c.length < i then none else some (c.take i ++ [x] ++ c.drop i)
+  | .swap i j, c =>
+    match c[i]?, c[j]? with
+    | some a, some b => some ((c.set i b).set j a)
+    | _, _ => none
+  | .reverse, c => some c.reverse
+  | .clear, _ => some []
+  | .retainEval, c => some (c.filter (fun i => i.obj.isSome))
+
 inductive Op where
-  | push (p : Pop) | pop | tryPop | cur | getCur | edit (p : Pop) | tryEdit (p : Pop)
-  | peek (d : Nat) | tryPeek (d : Nat) | rot (n : Nat) | len | empty
-  | cRot (n : Nat) | cClear | cDup | cIleave | cSplit
+  | push (p : Pop) | pop | tryPop | cur | getCur | edit (e : Edit) | tryEdit (e : Edit)
+  | peek (d : Nat) | tryPeek (d : Nat) | rot (n : Nat) | len | empty | reset
+  | cRot (n : Nat) | cClear | cDup
+  | cIleave (w : Option Nat)                          -- witness: height after a panic
+  | cSplit (w : Option Nat) (ws : Option (Pop × Pop)) -- witnesses: height after a panic; the two halves
   deriving Repr, DecidableEq
 
 inductive Out where
   | pop (p : Pop) | none | panic | ok | err | nat (n : Nat) | bool (b : Bool)
+  | panicH (h : Nat)          -- a component panicked; stack height afterwards
+  | split (l u : Pop)         -- `SplitPopulationByObjectiveValue` succeeded: new top, new second
   deriving Repr, DecidableEq
 
 /-- `Vec::pop`. -/
@@ -51,21 +108,41 @@ def rotate (s : Stk) (n : Nat) : Option Stk :=
   else some (s.take (len - n) ++ rotR1 (s.drop (len - n)))
 
 /-- `itertools::interleave(a, b)`: alternate, starting with `a`, until both are exhausted. -/
-def interleave : List Nat → List Nat → List Nat
+def interleave : Pop → Pop → Pop
   | [], ys => ys
   | x :: xs, ys =>
     match ys with
     | [] => x :: xs
     | y :: ys' => x :: y :: interleave xs ys'
 
-/-- `SplitPopulationByObjectiveValue` on the popped population `p` (objective value = tag):
-sort ascending, cut into chunks of `⌈n/2⌉`; exactly two chunks are required (`collect_tuple().unwrap()`),
-and `chunks(0)` panics, so fewer than two individuals panic. Returns `(lower, upper)`. -/
-def splitPop (p : Pop) : Option (Pop × Pop) :=
-  let sorted := p.mergeSort (fun a b => decide (a ≤ b))
-  let n := p.length
-  if n < 2 then none
-  else some (sorted.take ((n + 1) / 2), sorted.drop ((n + 1) / 2))
+/-! ### `SplitPopulationByObjectiveValue` -/
+
+/-- Sort key. Only ever compared when every individual is evaluated (otherwise the component panics). -/
+def key (i : Ind) : Nat := i.obj.getD 0
+
+def objLe (a b : Ind) : Bool := decide (key a ≤ key b)
+
+/-- `chunks(0)` panics, one chunk fails `collect_tuple().unwrap()`, and `objective()` panics on an
+individual that is not evaluated (the sort looks at every individual once there are two). -/
+def splittable (p : Pop) : Bool := decide (2 ≤ p.length) && p.all (fun i => i.obj.isSome)
+
+/-- One legal outcome: the stable sort. -/
+def splitCanon (p : Pop) : Pop × Pop :=
+  let sorted := p.mergeSort objLe
+  (sorted.take ((p.length + 1) / 2), sorted.drop ((p.length + 1) / 2))
+
+/-- What every correct ascending sort followed by the cut into chunks of `⌈n/2⌉` may produce. -/
+def splitLegal (p l u : Pop) : Bool :=
+  decide (l.length = (p.length + 1) / 2) && (l ++ u).isPerm p &&
+    decide ((l ++ u).Pairwise (fun a b => key a ≤ key b))
+
+/-- `(lower, upper)` for the popped population `p`; `none` = panic. -/
+def splitPop (p : Pop) (ws : Option (Pop × Pop)) : Option (Pop × Pop) :=
+  if splittable p then
+    match ws with
+    | some (l, u) => if splitLegal p l u then some (l, u) else some (splitCanon p)
+    | none => some (splitCanon p)
+  else none
 
 def step (s : Stk) : Op → Stk × Out
   | .push p => (s ++ [p], .ok)
@@ -85,13 +162,19 @@ def step (s : Stk) : Op → Stk × Out
     match s.getLast? with
     | some p => (s, .pop p)
     | none => (s, .none)
-  | .edit p =>                      -- `*current_mut() = p`
+  | .edit e =>                      -- `edit(current_mut())`
     match vecPop s with
-    | some (_, s') => (s' ++ [p], .ok)
+    | some (p, s') =>
+      match applyEdit e p with
+      | some p' => (s' ++ [p'], .ok)
+      | none => (s, .panic)
     | none => (s, .panic)
-  | .tryEdit p =>                   -- `get_current_mut().map(|c| *c = p)`
+  | .tryEdit e =>                   -- `get_current_mut().map(|c| edit(c))`
     match vecPop s with
-    | some (_, s') => (s' ++ [p], .ok)
+    | some (p, s') =>
+      match applyEdit e p with
+      | some p' => (s' ++ [p'], .ok)
+      | none => (s, .panic)
     | none => (s, .none)
   | .peek d =>
     match tryPeek s d with
@@ -107,34 +190,37 @@ def step (s : Stk) : Op → Stk × Out
     | none => (s, .panic)
   | .len => (s, .nat s.length)
   | .empty => (s, .bool s.isEmpty)
+  | .reset => ([], .ok)             -- `*populations = Populations::default()`
   | .cRot n =>                      -- `ensure!(len >= n)` then `rotate(n)`
     if s.length < n then (s, .err)
     else
       match rotate s n with
       | some s' => (s', .ok)
-      | none => (s, .panic)
+      | none => (s, .panicH s.length)
   | .cClear =>                      -- `current_mut().clear()`
     match vecPop s with
     | some (_, s') => (s' ++ [[]], .ok)
-    | none => (s, .panic)
+    | none => (s, .panicH 0)
   | .cDup =>                        -- pop; push(interleave(p, p.clone()))
     match vecPop s with
     | some (p, s') => (s' ++ [interleave p p], .ok)
-    | none => (s, .panic)
-  | .cIleave =>                     -- p1 = pop; p2 = pop; push(interleave(p1, p2))
+    | none => (s, .panicH 0)
+  | .cIleave w =>                   -- p1 = pop; p2 = pop; push(interleave(p1, p2))
     match vecPop s with
-    | none => (s, .panic)
+    | none => (s, .panicH 0)
     | some (p1, s1) =>
       match vecPop s1 with
-      | none => (s1, .panic)        -- the first pop already happened
+      | none =>                     -- the first pop already happened (unless the witness says otherwise)
+        if w = some s.length then (s, .panicH s.length) else (s1, .panicH s1.length)
       | some (p2, s2) => (s2 ++ [interleave p1 p2], .ok)
-  | .cSplit =>                      -- pop; sort; two halves; push(upper); push(lower)
+  | .cSplit w ws =>                 -- pop; sort; two halves; push(upper); push(lower)
     match vecPop s with
-    | none => (s, .panic)
+    | none => (s, .panicH 0)
     | some (p, s1) =>
-      match splitPop p with
-      | none => (s1, .panic)        -- the population was already popped
-      | some (lower, upper) => (s1 ++ [upper] ++ [lower], .ok)
+      match splitPop p ws with
+      | none =>                     -- the population was already popped (unless the witness says otherwise)
+        if w = some s.length then (s, .panicH s.length) else (s1, .panicH s1.length)
+      | some (lower, upper) => (s1 ++ [upper] ++ [lower], .split lower upper)
 
 def run (s : Stk) : List Op → Stk × List Out
   | [] => (s, [])
@@ -159,28 +245,35 @@ def specStep (s : Spec) : Op → Spec × Out
   | .tryPop => match s with | p :: r => (r, .pop p) | [] => (s, .none)
   | .cur => match s with | p :: _ => (s, .pop p) | [] => (s, .panic)
   | .getCur => match s with | p :: _ => (s, .pop p) | [] => (s, .none)
-  | .edit p => match s with | _ :: r => (p :: r, .ok) | [] => (s, .panic)
-  | .tryEdit p => match s with | _ :: r => (p :: r, .ok) | [] => (s, .none)
+  | .edit e =>
+    match s with
+    | p :: r => (match applyEdit e p with | some p' => (p' :: r, .ok) | none => (s, .panic))
+    | [] => (s, .panic)
+  | .tryEdit e =>
+    match s with
+    | p :: r => (match applyEdit e p with | some p' => (p' :: r, .ok) | none => (s, .panic))
+    | [] => (s, .none)
   | .peek d => match s[d]? with | some p => (s, .pop p) | none => (s, .panic)
   | .tryPeek d => match s[d]? with | some p => (s, .pop p) | none => (s, .none)
   | .rot n => if s.length < n then (s, .panic) else (specRot s n, .ok)
   | .len => (s, .nat s.length)
   | .empty => (s, .bool s.isEmpty)
+  | .reset => ([], .ok)
   | .cRot n => if s.length < n then (s, .err) else (specRot s n, .ok)
-  | .cClear => match s with | _ :: r => ([] :: r, .ok) | [] => (s, .panic)
-  | .cDup => match s with | p :: r => (interleave p p :: r, .ok) | [] => (s, .panic)
-  | .cIleave =>
+  | .cClear => match s with | _ :: r => ([] :: r, .ok) | [] => (s, .panicH 0)
+  | .cDup => match s with | p :: r => (interleave p p :: r, .ok) | [] => (s, .panicH 0)
+  | .cIleave w =>
     match s with
-    | [] => (s, .panic)
-    | [_] => ([], .panic)
+    | [] => (s, .panicH 0)
+    | [p] => if w = some 1 then ([p], .panicH 1) else ([], .panicH 0)
     | p1 :: p2 :: r => (interleave p1 p2 :: r, .ok)
-  | .cSplit =>
+  | .cSplit w ws =>
     match s with
-    | [] => (s, .panic)
+    | [] => (s, .panicH 0)
     | p :: r =>
-      match splitPop p with
-      | none => (r, .panic)
-      | some (lower, upper) => (lower :: upper :: r, .ok)
+      match splitPop p ws with
+      | none => if w = some s.length then (s, .panicH s.length) else (r, .panicH r.length)
+      | some (lower, upper) => (lower :: upper :: r, .split lower upper)
 
 def specRun (s : Spec) : List Op → Spec × List Out
   | [] => (s, [])
@@ -195,45 +288,116 @@ def abs (s : Stk) : Spec := s.reverse
 /-! ### Wire format -/
 open MahfModel Sexp
 
-def Op.parse? : Sexp → Option Op
-  | .list [.atom "push", p] => (nats? p).map Op.push
+/-- `N` = evaluated with objective `N`; `(N M)` = evaluated with objective `M`; `(N u)` = not evaluated. -/
+def Ind.parse? : Sexp → Option Ind
+  | .atom a => (a.toNat?).map fun n => ⟨n, some n⟩
+  | .list [.atom a, .atom "u"] => (a.toNat?).map fun n => ⟨n, none⟩
+  | .list [.atom a, .atom m] =>
+    match a.toNat?, m.toNat? with
+    | some n, some o => some ⟨n, some o⟩
+    | _, _ => none
+  | _ => none
+
+def Ind.toSexp (i : Ind) : Sexp :=
+  match i.obj with
+  | none => .list [ofNat i.tag, .atom "u"]
+  | some o => if o = i.tag then ofNat i.tag else .list [ofNat i.tag, ofNat o]
+
+def Pop.parse? : Sexp → Option Pop
+  | .list xs => xs.mapM Ind.parse?
+  | _ => none
+
+def Pop.toSexp (p : Pop) : Sexp := .list (p.map Ind.toSexp)
+
+def Edit.parse? : Sexp → Option Edit
+  | .list [.atom "e-push", i] => (Ind.parse? i).map Edit.push
+  | .list [.atom "e-extend", p] => (Pop.parse? p).map Edit.extend
+  | .list [.atom "e-truncate", k] => (nat? k).map Edit.truncate
+  | .list [.atom "e-swaprm", i] => (nat? i).map Edit.swapRemove
+  | .list [.atom "e-remove", i] => (nat? i).map Edit.remove
+  | .list [.atom "e-insert", i, x] =>
+    match nat? i, Ind.parse? x with
+    | some i, some x => some (.insert i x)
+    | _, _ => none
+  | .list [.atom "e-swap", i, j] =>
+    match nat? i, nat? j with
+    | some i, some j => some (.swap i j)
+    | _, _ => none
+  | .list [.atom "e-reverse"] => some .reverse
+  | .list [.atom "e-clear"] => some .clear
+  | .list [.atom "e-retain"] => some .retainEval
+  | p => (Pop.parse? p).map Edit.set
+
+def Op.parseBase? : Sexp → Option Op
+  | .list [.atom "push", p] => (Pop.parse? p).map Op.push
   | .list [.atom "pop"] => some .pop
   | .list [.atom "trypop"] => some .tryPop
   | .list [.atom "cur"] => some .cur
   | .list [.atom "getcur"] => some .getCur
-  | .list [.atom "edit", p] => (nats? p).map Op.edit
-  | .list [.atom "tryedit", p] => (nats? p).map Op.tryEdit
+  | .list [.atom "edit", e] => (Edit.parse? e).map Op.edit
+  | .list [.atom "tryedit", e] => (Edit.parse? e).map Op.tryEdit
   | .list [.atom "peek", d] => (nat? d).map Op.peek
   | .list [.atom "trypeek", d] => (nat? d).map Op.tryPeek
   | .list [.atom "rot", n] => (nat? n).map Op.rot
   | .list [.atom "len"] => some .len
   | .list [.atom "empty"] => some .empty
+  | .list [.atom "reset"] => some .reset
   | .list [.atom "c-rot", n] => (nat? n).map Op.cRot
   | .list [.atom "c-clear"] => some .cClear
   | .list [.atom "c-dup"] => some .cDup
-  | .list [.atom "c-ileave"] => some .cIleave
-  | .list [.atom "c-split"] => some .cSplit
+  | .list [.atom "c-ileave"] => some (.cIleave none)
+  | .list [.atom "c-split"] => some (.cSplit none none)
   | _ => none
 
+/-- `(in k OP)`: `OP` executed inside `k` nested child scopes (`State::with_inner_state`). The population
+stack lives in the outermost registry, so the scope depth does not matter to the model. -/
+def Op.parse? : Sexp → Option Op
+  | .list [.atom "in", _, op] => Op.parseBase? op
+  | op => Op.parseBase? op
+
+/-- Reads the witnesses of the real run off its output for this operation. -/
+def Op.withWitness (op : Op) (implOut : Sexp) : Op :=
+  match op, implOut with
+  | .cIleave _, .list [.atom "panic", h] => .cIleave (nat? h)
+  | .cSplit _ _, .list [.atom "panic", h] => .cSplit (nat? h) none
+  | .cSplit _ _, .list [.atom "ok", l, u] =>
+    match Pop.parse? l, Pop.parse? u with
+    | some l, some u => .cSplit none (some (l, u))
+    | _, _ => op
+  | _, _ => op
+
+def attach : List Op → List Sexp → List Op
+  | [], _ => []
+  | op :: ops, [] => op :: ops
+  | op :: ops, o :: os => op.withWitness o :: attach ops os
+
 def Out.toSexp : Out → Sexp
-  | .pop p => ofNats p
+  | .pop p => Pop.toSexp p
   | .none => .atom "none"
   | .panic => .atom "panic"
   | .ok => .atom "ok"
   | .err => .list [.atom "e", .atom "exec"]
   | .nat n => ofNat n
   | .bool b => ofBool b
+  | .panicH h => .list [.atom "panic", ofNat h]
+  | .split l u => .list [.atom "ok", Pop.toSexp l, Pop.toSexp u]
 
-/-- Input `(ops op*)`; output `(outs out*) (stack P*)` with the stack printed top first. -/
-def handleCase (input : Sexp) : Option (Sexp × Sexp) := do
+/-- Input `(ops op*)`, implementation output `((outs out*) (stack P*))`; model / spec output in the same
+shape, the stack printed top first. The implementation's output is only used to read the witnesses. -/
+def handleCase (input implOut : Sexp) : Option (Sexp × Sexp) := do
   let opsS ← tagged? "ops" input
-  let ops ← opsS.mapM Op.parse?
+  let ops0 ← opsS.mapM Op.parse?
+  let implOuts :=
+    match implOut with
+    | .list (o :: _) => (tagged? "outs" o).getD []
+    | _ => []
+  let ops := attach ops0 implOuts
   let (s, outs) := run [] ops
   let (sp, outsSpec) := specRun [] ops
   let modelOut := Sexp.list [.list (.atom "outs" :: outs.map Out.toSexp),
-                             .list (.atom "stack" :: (abs s).map ofNats)]
+                             .list (.atom "stack" :: (abs s).map Pop.toSexp)]
   let specOut := Sexp.list [.list (.atom "outs" :: outsSpec.map Out.toSexp),
-                            .list (.atom "stack" :: sp.map ofNats)]
+                            .list (.atom "stack" :: sp.map Pop.toSexp)]
   pure (modelOut, specOut)
 
 end MahfModel.PopStack
